@@ -18,7 +18,7 @@ write-log entries `k:v` / `k:~` (delete).
   commit HASH LOG              Tree.Commit: root hash and returned write log (sorted by key)
   reopen HASH                  NewWithRoot at a committed root (no overlays open)
   applywl LOG                  ApplyWriteLog on the tree, entries in the given order
-  getwl H1 H2 LOG              NodeDB.GetWriteLog(H1 -> H2) (sorted by key)
+  getwl H1 H2 LOG              NodeDB.GetWriteLog(H1 -> H2): sub-log of Commit's log that maps contents(H1) to contents(H2)
   wf                           model self-check: current trie is in canonical form
 -/
 namespace OasisModel.Mkvs.Driver
@@ -160,13 +160,23 @@ def step (st : St) (line : String) : St × String :=
     | some log => ({ st with tree := st.tree.applyWriteLog log }, "ok")
     | none => fail "bad-op"
   | ["getwl", h1, h2, log] =>
+    -- The served log must be a sub-list of the log `Commit` built (same entries for the keys it
+    -- mentions, unique keys) and, applied to the contents of the first root, give the contents of
+    -- the second root (C13). Entries `Commit` reported for keys whose value did not change may be
+    -- missing from the served log.
     match parseHex h1, parseHex h2, parseLog log with
     | some h1, some h2, some log =>
-      match st.logs.find? (fun e => e.1 == h1 && e.2.1 == h2) with
-      | some e =>
-        if e.2.2 == sortLog log then (st, "ok")
-        else fail s!"db-write-log model={showLog e.2.2} impl={showLog (sortLog log)}"
-      | none => fail "getwl: no such transition in the model"
+      match st.logs.find? (fun e => e.1 == h1 && e.2.1 == h2), st.roots.lookup h1, st.roots.lookup h2 with
+      | some e, some t1, some t2 =>
+        let served := sortLog log
+        if !(served.all (fun x => e.2.2.contains x)) then
+          fail s!"db-write-log has entries Commit did not report: model={showLog e.2.2} impl={showLog served}"
+        else if (served.map (·.1)).eraseDups.length != served.length then
+          fail s!"db-write-log has duplicate keys: impl={showLog served}"
+        else if applyLogSpec t1.toList served != t2.toList then
+          fail s!"db-write-log does not map the first root's contents to the second's: model={showLog e.2.2} impl={showLog served}"
+        else (st, "ok")
+      | _, _, _ => fail "getwl: no such transition in the model"
     | _, _, _ => fail "bad-op"
   | ["wf"] =>
     if wfAtB [] st.tree.root then (st, "ok") else fail "model trie not in canonical form"
